@@ -1154,6 +1154,54 @@ func (m *Model) ruleRMW(r *Results) {
 			r.undecided(rule, "path-exists refusal", "-", "no function returns sgbucket.ErrPathExists")
 		}
 	}
+	// (g) in a loop that sets or removes one entry of a container it read ("value == nil removes"),
+	// the set and the remove address the same container and key
+	for _, lp := range loops {
+		fn := lp.Fn
+		var sets []*ssa.MapUpdate
+		var dels []*ssa.Call
+		for g := range m.reachableLocal(fn) {
+			if g != fn && len(m.staticCallersOf(g)) != 1 {
+				continue
+			}
+			if g != fn && m.reachesRunner(g, map[*ssa.Function]int{}) {
+				continue
+			}
+			var gs []*ssa.MapUpdate
+			var gd []*ssa.Call
+			for _, b := range g.Blocks {
+				for _, ins := range b.Instrs {
+					switch x := ins.(type) {
+					case *ssa.MapUpdate:
+						gs = append(gs, x)
+					case *ssa.Call:
+						if bi, ok := x.Common().Value.(*ssa.Builtin); ok && bi.Name() == "delete" {
+							gd = append(gd, x)
+						}
+					}
+				}
+			}
+			if len(gs) == 1 && len(gd) == 1 && gs[0].Parent() == gd[0].Parent() {
+				// only when they are the two arms of one decision ("value given: set, else: remove")
+				arms := false
+				for _, c1 := range controllingConds(g, gs[0].Block()) {
+					for _, c2 := range controllingConds(g, gd[0].Block()) {
+						if c1.If == c2.If && c1.Branch != c2.Branch {
+							arms = true
+						}
+					}
+				}
+				if arms {
+					sets, dels = append(sets, gs[0]), append(dels, gd[0])
+				}
+			}
+		}
+		for i := range sets {
+			st, dl := sets[i], dels[i]
+			same := sameVariable(st.Map, dl.Common().Args[0]) && sameVariable(st.Key, dl.Common().Args[1])
+			r.check(same, rule, m.declName(fn)+" / set and remove address the same entry", m.instrPos(dl), "the entry that is removed (empty value) is the entry that would be set", "the remove branch deletes from a different container or key than the set branch writes to: removing a nested property leaves it in place (and may delete an unrelated top-level property)")
+		}
+	}
 	// (e) the retry tests recognise a CAS mismatch by a type assertion, which a wrapped error fails:
 	// the mismatch error is never handed to fmt.Errorf
 	usesAssert := false
@@ -1862,4 +1910,40 @@ func (m *Model) sqlZeroCasUnguarded(s *SQLSite, K *ssa.Function, c0 *cut, isP fu
 		}
 	}
 	return uniq(out)
+}
+
+// sameVariable: two SSA values can be the same source variable: equal, loads of the same cell,
+// or phis that share a leaf (`if m == nil { m = new }` makes a phi of the variable).
+func sameVariable(a, b ssa.Value) bool {
+	leaves := func(v ssa.Value) map[ssa.Value]bool {
+		out := map[ssa.Value]bool{}
+		var walk func(v ssa.Value, d int)
+		walk = func(v ssa.Value, d int) {
+			v = stripConv(v)
+			if d > 5 || out[v] {
+				return
+			}
+			if phi, ok := v.(*ssa.Phi); ok {
+				out[v] = true
+				for _, e := range phi.Edges {
+					walk(e, d+1)
+				}
+				return
+			}
+			if ld, ok := v.(*ssa.UnOp); ok && ld.Op == token.MUL {
+				out[ld.X] = true
+				return
+			}
+			out[v] = true
+		}
+		walk(v, 0)
+		return out
+	}
+	la, lb := leaves(a), leaves(b)
+	for v := range la {
+		if lb[v] {
+			return true
+		}
+	}
+	return false
 }
